@@ -39,7 +39,7 @@ theorem deadValue (s : SchemaD) (fx : Fixes) : ∀ (v : Value) (t : TI), t.input
   | .obj fs, t, h, p, hp => by
     rw [gnValue, List.mem_cons] at hp
     rcases hp with rfl | hp
-    · exact ⟨fun _ => scalarErrs_dead s _ _ h, fun hb => by simp [vocBad, tiEnter, h] at hb⟩
+    · exact ⟨fun _ => scalarErrs_dead s _ _ h, fun _ => by simp [vocF, tiEnter, h]⟩
     · exact deadObjFields s fx fs _ h p hp
   | .var a, t, h, p, hp => by
     simp only [gnValue, List.mem_singleton] at hp; subst hp
@@ -125,7 +125,8 @@ theorem deadObjFields_np (s : SchemaD) (fx : Fixes) : ∀ (fs : List ObjField) (
 theorem deadPos_of_bad (s : SchemaD) (fs : List ObjField) (t : TI) (hb : vocBad s (.value (.obj fs)) t = true) :
     DeadPos s t := by
   intro it hit
-  simpa [vocBad, hit] using hb
+  simp only [vocBad, hit, Option.map_some, Bool.and_eq_true, Bool.not_eq_eq_eq_not, Bool.not_true] at hb
+  exact hb.1
 
 private theorem enter_one' (s : SchemaD) (fx : Fixes) (r : Rule) (n : Node) (st : St) :
     enter ⟨s, fx, [r]⟩ n st =
